@@ -237,6 +237,17 @@ def handle (line : String) : String :=
         let triv := if prims.isEmpty ∧ elemsSeqTags tree = [] ∧ !elemsHasPix tree then "trivial-" else ""
         s!"ok {triv}rt-{ts}-{path}-d{elemsDepth tree}-n{min prims.length 6}-px{elemsHasPix tree}-x{elemsHasExplicit tree}"
     | _, _, _ => "BAD-LINE"
+  | ["refread", ts, "D", dict, "B", hx] :: [] =>
+    -- the real reader rejected the independent reference encoding of a generated data set (sequences and
+    -- items with explicit and undefined lengths mixed). If the reader model accepts it, it is a stream the
+    -- real writer produces under NoChange (writer = reference encoder on canonical trees, `C02.writer_eq_ref`)
+    -- which does not read back: a failing input of the round trip.
+    match tsOf4 ts, parseDict dict, unhex hx with
+    | some syn, some d, some bs =>
+      match readDataset syn (dictFn d) bs with
+      | .ok _ => s!"PROP-FAIL class=written-stream-not-readable the reader rejects a conforming stream with explicit/undefined lengths that the writer (NoChange) produces"
+      | .error _ => "ok trivial-refread-rejected-by-model-too"
+    | _, _, _ => "BAD-LINE"
   | _ => "BAD-LINE"
 
 def main : IO Unit := Driver.run handle
